@@ -56,9 +56,9 @@ def apply_mutant(scratch, m):
     return True
 
 
-def analyse(pid, repo):
+def analyse(pid, repo, use_cache=False):
     """Run the quick rules of pid on repo; returns the Ctx."""
-    prog = frontend.load(repo, use_cache=False)
+    prog = frontend.load(repo, use_cache=use_cache)
     ctx = report.Ctx(pid, 'quick', prog)
     mod = importlib.import_module('hepsa.rules.' + pid)
     try:
@@ -68,7 +68,7 @@ def analyse(pid, repo):
     from .main import INSTANTIATIONS_QUICK
     for numeric, engine in INSTANTIATIONS_QUICK:
         try:
-            p2 = frontend.load(repo, numeric=numeric, engine=engine, use_cache=False)
+            p2 = frontend.load(repo, numeric=numeric, engine=engine, use_cache=use_cache)
             ctx.prog = p2
             ctx.inst_label = '%s/%s' % (numeric, engine)
             mod.check(ctx)
